@@ -112,6 +112,12 @@ func c01Gen(c *rt.Ctx) c01Case {
 		// big-integer store: make sure the exact value of int(value) decides
 		lit, _ := strconv.ParseInt(st.Pairs[r.Intn(len(st.Pairs)-2)].V, 10, 64)
 		cmp := gen.Bin([]string{"=", "!=", ">", "<", ">=", "<="}[r.Intn(6)], gen.Call("int", gen.Value()), gen.Int(lit))
+		if c.Case%4 == 2 {
+			// wave 15 (C15-aa): a literal of digits only that no 64-bit integer holds is the float it
+			// spells (2^64: every stored integer is below it whatever the rounding)
+			cmp = gen.Bin([]string{"<", "<=", ">", ">="}[(c.Case/4)%4], gen.Call("int", gen.Value()), gen.Float("18446744073709551616"))
+			c.Rec.Inc("all_digit_literals_beyond_int64")
+		}
 		if r.Bool() {
 			pred = gen.And(cmp, pred)
 		} else {
